@@ -530,6 +530,10 @@ class Tr:
         return '(yield %s)' % (s.x(n.arg) if n.arg is not None else '')
 
     def s_ReturnStatNode(s, n, ind):
+        if n.value is not None and getattr(s, 'ret_double', False) and type(n.value).__name__ in ('BoolBinopNode', 'PrimaryCmpNode', 'NotNode', 'CascadedCmpNode'):
+            # C coerces the truth value to the declared double return type (1.0 / 0.0)
+            s.emit(ind, 'return _sx_.todouble(_sx_.truth(%s))' % s.x(n.value), n)
+            return
         s.emit(ind, 'return ' + (s.x(n.value) if n.value is not None else ''), n)
 
     def s_PassStatNode(s, n, ind):
@@ -744,7 +748,13 @@ class Tr:
         while type(d).__name__ != 'CFuncDeclaratorNode':
             d = d.base
         name = d.base.name
-        s.funcdef(name, d.args, None, None, n.body, ind, n, is_cdef=True, overridable=bool(n.overridable), decorators_of=n)
+        saved = getattr(s, 'ret_double', False)
+        bt = n.base_type
+        s.ret_double = getattr(bt, 'name', None) in ('double', 'float') and type(n.declarator).__name__ == 'CFuncDeclaratorNode'
+        try:
+            s.funcdef(name, d.args, None, None, n.body, ind, n, is_cdef=True, overridable=bool(n.overridable), decorators_of=n)
+        finally:
+            s.ret_double = saved
 
     def names_in(s, node, acc):
         """names referenced by an expression tree (used to pre-resolve lazy imports needed inside class bodies)"""
